@@ -33,6 +33,8 @@ def run(prog, chk):
         "the above / below anchor filters of abvm / blwm are complementary by construction and each feature uses its own (R06.13)",
         "the ligature component number is the whole trailing run of digits of the anchor name (regex AST of LIGA_NUM_RE) (R06.14)",
     ]
+    chk.decided += ["every collected contextual anchor reaches a contextual lookup: the three contextual tables are enumerated in full (no glyph filter: the abvm / blwm builder makes no contextual lookups), "
+                    "every (glyph, anchor) pair is turned into a statement and every group is handed to the lookup builder (R06.15)"]
     chk.not_decided += ["the offsets a shaper computes", "lookup grouping / graph colouring result", "which script a glyph is routed to (abvm / blwm classification data)", "contextual anchors' generated rules"]
     chk.guard(r061, prog, chk)
     chk.guard(r062, prog, chk)
@@ -47,6 +49,7 @@ def run(prog, chk):
     chk.guard(r0612, prog, chk)
     chk.guard(r0613, prog, chk)
     chk.guard(r0614, prog, chk)
+    chk.guard(r0615, prog, chk)
     from .rounding import check_no_truthiness_on_coordinates
     n = check_no_truthiness_on_coordinates(prog, chk, "R06.9", [MARK, "ufo2ft.featureWriters.baseFeatureWriter"])
     need(n >= 40, "truthiness scan found too few tests")
@@ -725,7 +728,110 @@ def r0614(prog, chk):
     chk.minimum("R06.14", 1)
 
 
+# ----------------------------------------------------------------------------- R06.15
+def _enum_root(prog, fi, e, depth=0):
+    """If `e` enumerates every (key, value) of a mapping - `M.items()` possibly wrapped in sorted / list / tuple / reversed, or a
+    generator helper of the package that yields every item of its argument unchanged - return the mapping expression."""
+    while isinstance(e, ast.Call) and isinstance(e.func, ast.Name) and e.func.id in ("sorted", "list", "tuple", "reversed") and e.args:
+        e = e.args[0]
+    if isinstance(e, ast.Call) and isinstance(e.func, ast.Attribute) and e.func.attr == "items" and not e.args and not e.keywords:
+        return e.func.value
+    if isinstance(e, ast.Call) and depth < 2:
+        try:
+            ts, how = prog.resolve_callee(fi, e.func)
+        except Exception:
+            return None
+        if how != "exact" or len(ts) != 1 or not isinstance(ts[0], FuncInfo) or isinstance(ts[0].node, ast.Lambda):
+            return None
+        t = ts[0]
+        ps = t.params()
+        if ps and ps[0] in ("self", "cls") and isinstance(e.func, ast.Attribute):
+            ps = ps[1:]
+        loops = [n for n in t.node.body if isinstance(n, ast.For)]
+        ys = [n for n in A.body_nodes(t.node) if isinstance(n, (ast.Yield, ast.YieldFrom))]
+        if len(loops) != 1 or not ys or any(isinstance(y, ast.YieldFrom) for y in ys):
+            return None
+        lp = loops[0]
+        root = _enum_root(prog, t, lp.iter, depth + 1)
+        if not (isinstance(root, ast.Name) and root.id in ps) or not isinstance(lp.target, ast.Tuple):
+            return None
+        tn = [T(x) for x in lp.target.elts]
+        for y in ys:
+            if not any(a is lp for a in prog.ix.ancestors(y)):
+                return None
+            if not (isinstance(y.value, ast.Tuple) and [T(x) for x in y.value.elts] == tn):
+                return None
+            if any(g.kind in ("if", "boolop", "ifexp", "while") for g in may_conds(prog, t, y)):
+                return None
+        # no rebinding of the loop variables on the way to the yield
+        if any(isinstance(n, ast.Name) and isinstance(n.ctx, ast.Store) and n.id in tn and not any(n is x for x in ast.walk(lp.target)) for n in ast.walk(lp)):
+            return None
+        i = ps.index(root.id)
+        arg = e.args[i] if i < len(e.args) else A.kwarg(e, root.id)
+        return arg
+    return None
+
+
+def r0615(prog, chk):
+    ix = prog.ix
+    W = f"{MARK}.MarkFeatureWriter"
+    mf = ix.get_method(W, "_makeFeatures", own=True)
+    fields = []
+    for st in A.stmts_of(mf.node):
+        if isinstance(st, ast.Assign) and isinstance(st.value, ast.Call) and A.callee_name(st.value) == "_makeContextualAttachments":
+            for t in st.targets:
+                for el in (t.elts if isinstance(t, ast.Tuple) else [t]):
+                    if isinstance(el, ast.Attribute):
+                        fields.append(el.attr)
+    need(len(fields) == 3, f"cannot interpret {mf.short}: the three contextual anchor tables")
+    seen = {}
+    for mname in ("_makeMarkFeature", "_makeMkmkFeature"):
+        f = ix.get_method(W, mname, own=True)
+        for lp in [n for n in A.body_nodes(f.node) if isinstance(n, ast.For)]:
+            mentioned = [fl for fl in fields if any(isinstance(x, ast.Attribute) and x.attr == fl for x in ast.walk(lp.iter))]
+            if not mentioned:
+                continue
+            fl = mentioned[0]
+            seen.setdefault(fl, []).append(f.short)
+            root = _enum_root(prog, f, lp.iter)
+            ok = root is not None and T(root) == f"self.context.{fl}"
+            chk.ob("R06.15", f"{f.short}|{fl}|every context of the table is enumerated (no glyph filter)", ok, where(f, lp), detail=T(lp.iter, 100),
+                   message=f"{f.short}: the contextual anchors in {fl} are not enumerated in full (`{T(lp.iter, 80)}`): contextual anchors the loop leaves out get no lookup at all - "
+                           f"the abvm / blwm builder does not make contextual lookups, so mark and base never coincide for those glyphs")
+            if not ok or not isinstance(lp.target, ast.Tuple) or len(lp.target.elts) != 2:
+                continue
+            pairs = T(lp.target.elts[1])
+            inner = [n for n in lp.body if isinstance(n, ast.For) and T(n.iter) == pairs]
+            builders = [c for c in A.body_nodes(lp) if isinstance(c, ast.Call) and A.callee_name(c) == "_makeContextualMarkLookup"]
+            need(len(inner) == 1 and len(builders) == 1, f"cannot interpret {f.short}: contextual loop over {fl}")
+            apps = [c for c in A.body_nodes(inner[0]) if isinstance(c, ast.Call) and A.callee_name(c) == "append" and isinstance(c.func.value, ast.Subscript)]
+
+            def inside(g):
+                return any(a is lp for a in ix.ancestors(g.loc)) or g.loc is lp
+            okp = len(apps) == 1 and not [g for g in may_conds(prog, f, apps[0]) if g.kind in ("if", "boolop", "ifexp", "while") and inside(g)] \
+                and not any(isinstance(n, (ast.Continue, ast.Break)) for n in ast.walk(lp))
+            okb = not [g for g in may_conds(prog, f, builders[0]) if g.kind in ("if", "boolop", "ifexp", "while") and inside(g)] \
+                and builders[0].args and apps and T(builders[0].args[0]) == T(apps[0].func.value.value)
+            chk.ob("R06.15", f"{f.short}|{fl}|every (glyph, anchor) pair becomes a statement and every group reaches the lookup builder", okp and okb, where(f, inner[0]),
+                   detail=f"{T(apps[0], 70) if apps else ''}; {T(builders[0], 50)}",
+                   message=f"{f.short}: a contextual (glyph, anchor) pair of {fl} can be skipped on the way to its lookup")
+    missing = [fl for fl in fields if fl not in seen]
+    chk.ob("R06.15", "each of the three contextual tables is consumed by the mark / mkmk builders", not missing, where(mf), detail=str(seen),
+           message=f"contextual anchors collected in {missing} are never turned into lookups")
+    chk.minimum("R06.15", 7)
+
+
 MUTANTS = [
+    M("contextual anchors filtered by the not-abvm predicate (seeded C06i)", "ufo2ft/featureWriters/markFeatureWriter.py", "MarkFeatureWriter._makeMkmkFeature",
+      "for glyphName, anchor in glyph_anchor_pair:\n    attachments[anchor.key].append(MarkToMarkPos(glyphName, [anchor]))",
+      "for glyphName, anchor in glyph_anchor_pair:\n    if include(glyphName):\n        attachments[anchor.key].append(MarkToMarkPos(glyphName, [anchor]))", rule="R06.15"),
+    M("only contexts with a lookahead get contextual mark lookups", "ufo2ft/featureWriters/markFeatureWriter.py", "MarkFeatureWriter._makeMarkFeature",
+      "sorted(self.context.contextualMarkToBaseAnchors.items(), key=lambda x: -len(x[0]))",
+      "sorted(((k, v) for k, v in self.context.contextualMarkToBaseAnchors.items() if ';' in k), key=lambda x: -len(x[0]))", rule="R06.15"),
+    M("contextual tables enumerated through a generator helper", "ufo2ft/featureWriters/markFeatureWriter.py", "MarkFeatureWriter._makeMkmkFeature",
+      "sorted(self.context.contextualMarkToMarkAnchors.items(), key=lambda x: -len(x[0]))", "self._iterContexts(self.context.contextualMarkToMarkAnchors)", kind="equiv",
+      also=(("ufo2ft/featureWriters/markFeatureWriter.py", "MarkFeatureWriter", "<add-method>",
+             "@staticmethod\ndef _iterContexts(table):\n    for context, pairs in sorted(table.items(), key=lambda x: -len(x[0])):\n        yield context, pairs\n"),)),
     M("greedy prefix in the ligature-number pattern (seeded C06g)", "ufo2ft/featureWriters/markFeatureWriter.py", None,
       "re.compile(r'.*?(\\d+)$')", "re.compile(r'.*(\\d+)$')", rule="R06.14"),
     M("below-mark filter decided on its own (seeded C06f)", "ufo2ft/featureWriters/markFeatureWriter.py", "MarkFeatureWriter._isBelowMark",
